@@ -673,7 +673,8 @@ func c10DeepProgram(rounds int, dict bool, triggers []string) string {
 	tmpl.WriteString("0" + strings.Repeat("】", K))
 	// 节点#1 is the template just stored; K-1 more steps lead to its innermost list
 	for i := 1; i < K; i++ {
-		if dict && i%3 == 1 {
+		// (step i leaves the container of level i-1: a dictionary when (i-1)%3 == 1)
+		if dict && (i-1)%3 == 1 {
 			chain.WriteString("#“k”")
 		} else {
 			chain.WriteString("#1")
@@ -790,7 +791,11 @@ func c10DeepValues(c *Ctx) {
 					}
 				}
 			} else {
-				c.Violation("deep-shape:"+name, "the deep-values program did not return its list of outcomes: "+clip(got, 300), map[string]interface{}{"req": r})
+				detail := ""
+				if resp.Err != nil {
+					detail = fmt.Sprintf(" [%d] %s", resp.Err.Code, clip(resp.Err.Text, 600))
+				}
+				c.Violation("deep-shape:"+name, "the deep-values program ("+name+") did not return its list of outcomes: "+clip(got, 300)+detail, map[string]interface{}{"req": r})
 			}
 			c.Sample(map[string]string{"deep-values": name, "outcome": got})
 		case "timeout":
